@@ -68,6 +68,22 @@ def key_of(view, m):
     return k + (":" + s if s else "")
 
 
+def all_tags(s):
+    """Every type-system directive application of the schema (they are not part of the introspection facts)."""
+    out = []
+    for t in s["types"]:
+        out.append(["t", t["name"], t.get("tags", [])])
+        for f in t["fields"]:
+            out.append(["f", t["name"], f["name"], f["tags"]])
+            for a in f["args"]:
+                out.append(["a", t["name"], f["name"], a["name"], a.get("tags", [])])
+        for iv in t["inputs"]:
+            out.append(["i", t["name"], iv["name"], iv.get("tags", [])])
+        for v in t["values"]:
+            out.append(["v", t["name"], v["name"], v.get("tags", [])])
+    return sorted(x for x in out if x[-1])
+
+
 def nontrivial(s):
     if len(s["types"]) >= 3:
         return True
@@ -94,6 +110,16 @@ def features(s):
             out.add("interface-implements-interface")
         if t["url"]:
             out.add("specifiedBy")
+        if t.get("tags"):
+            out.add("applied-directive:" + t["kind"])
+            if t["kind"] == "SCALAR":
+                out.add("scalar-with-directive-" + ("and-specifiedBy" if t["url"] else "no-specifiedBy"))
+        if any(v.get("tags") for v in t["values"]):
+            out.add("applied-directive:ENUM_VALUE")
+        if any(iv.get("tags") for iv in t["inputs"]):
+            out.add("applied-directive:INPUT_FIELD_DEFINITION")
+        if any(a.get("tags") for f in t["fields"] for a in f["args"]):
+            out.add("applied-directive:ARGUMENT_DEFINITION")
         if t["desc"]:
             out.add("description")
         for f in t["fields"]:
@@ -102,7 +128,7 @@ def features(s):
             if f["dep"]["d"]:
                 out.add("deprecated-field" + ("" if f["dep"]["hr"] else "-noreason"))
             if f["tags"]:
-                out.add("applied-directive")
+                out.add("applied-directive:FIELD_DEFINITION")
             for a in f["args"]:
                 if a["def"]["t"] != "x":
                     out.add("default:" + a["def"]["t"])
@@ -120,8 +146,12 @@ def features(s):
         out.add("directive" + ("-repeatable" if d["rep"] else ""))
     if s["query"] != "Query" or s["mutation"] not in ("", "Mutation") or s["subscription"] not in ("", "Subscription"):
         out.add("custom-root-names")
-    if s["sd"] and any(t["name"] in ("Mutation", "Subscription") and t["name"] not in (s["mutation"], s["subscription"]) for t in s["types"]):
-        out.add("default-named-type-not-root")
+    roots = (s["query"], s["mutation"], s["subscription"])
+    for t in s["types"]:
+        if t["name"] in ("Query", "Mutation", "Subscription") and t["name"] not in roots:
+            which = {"Query": s["query"], "Mutation": s["mutation"], "Subscription": s["subscription"]}[t["name"]]
+            # an ordinary type with a default root name, while that root is renamed / absent
+            out.add("default-named-type-not-root:%s:%s" % (t["name"], "renamed" if which else "absent"))
     return out
 
 
@@ -159,7 +189,7 @@ def generate(ctx, quick):
             # schemas that differ only in the order of definitions
             s = o["s"]
             canon = lib.sha([sorted(json.dumps(f, sort_keys=True) for f in o.get("exp", [])), s["sd"], s["query"], s["mutation"], s["subscription"],
-                             sorted([t["name"], f["name"], f["tags"]] for t in s["types"] for f in t["fields"] if f["tags"]),
+                             all_tags(s),
                              sorted([t["name"], f["name"], a["name"], a["dep"]["hr"]] for t in s["types"] for f in t["fields"] for a in f["args"])])
             if canon in seen:
                 continue
@@ -198,6 +228,21 @@ def select(cases, quick, rng):
             pre = multi_i[:cap // 3] + [x for x in multi_o if x not in multi_i[:cap // 3]][:cap // 3]
             l = pre + [x for x in l if x not in pre]
         chosen += l[:cap]
+    # every feature class the generator produced is exercised by at least MINF replayed schemas (rare shapes must not
+    # depend on the luck of the sample): top up from the generated set, smallest schemas first
+    MINF = 3 if quick else 12
+    have = {}
+    for _, c in chosen:
+        for ft in features(c["s"]):
+            have[ft] = have.get(ft, 0) + 1
+    ids = {c["id"] for _, c in chosen}
+    pool = sorted((x for x in cases if x[1]["id"] not in ids), key=lambda x: (len(x[1]["s"]["types"]), x[1]["n"], x[1]["id"]))
+    for x in pool:
+        fs = features(x[1]["s"])
+        if any(have.get(ft, 0) < MINF for ft in fs):
+            chosen.append(x)
+            for ft in fs:
+                have[ft] = have.get(ft, 0) + 1
     return chosen, exhaustive_part
 
 
